@@ -269,6 +269,45 @@ def gen_file(rng, force: dict = None):
   return data, ast
 
 
+def gen_dh_file(rng):
+  """Directed class: teletext file of double-height subtitles, some with empty double-height rows (runs of four newline
+  codes), at positions that fit the 23 rows; several share their last occupied row with a differently shaped one."""
+  rate = 25
+  ttis, subs_ast = [], []
+  t = 2
+  sn = 1
+  lasts = []
+  for k in range(rng.choice([6, 8, 10])):
+    nlines = rng.choice([1, 2, 2, 3])
+    runs = [rng.choice([2, 2, 4]) for _ in range(nlines - 1)]
+    if k % 3 == 1 and nlines > 1:
+      runs[rng.randrange(len(runs))] = rng.choice([4, 4, 6])
+    nn = sum(runs)
+    # last occupied row: sometimes the one of an earlier subtitle (other shape, same anchor)
+    if lasts and rng.random() < 0.5 and rng.choice(lasts) - nn - 1 >= 1:
+      last = rng.choice([x for x in lasts if x - nn - 1 >= 1])
+    else:
+      last = rng.randrange(nn + 2, 24)
+    lasts.append(last)
+    vp = last - nn - 1
+    tf = b""
+    for j in range(nlines):
+      if j:
+        tf += b"\x8a" * runs[j - 1]
+      tf += b"\x0d" + bytes(rng.choice(b"ABCDEFGHJKLMNPRSTUVWXYZ") for _ in range(rng.choice([2, 3, 5]))) + b"%d" % (k * 10 + j)
+    tci, tco = label(t * rate, rate, False), label((t + 2) * rate, rate, False)
+    ttis.append({"sgn": 0, "sn": sn, "ebn": 0xFF, "cs": 0, "tci": tci, "tco": tco, "vp": vp, "jc": rng.choice([1, 2, 2, 3]), "cf": 0, "tf": tf})
+    subs_ast.append({"sn": sn, "cs": 0, "comment": False, "blocks": 1, "tci": list(tci), "tco": list(tco), "vp": vp, "jc": 2, "tf": tf.hex(),
+                     "newline_runs": runs})
+    sn += 1
+    t += 3
+  gsi_kw = {"dfc": "STL25.01", "dsc": rng.choice(["1", "2"]), "cct": "00", "lc": "09", "tcp": "00000000", "mnr": "23"}
+  data = assemble(gsi_kw, ttis)
+  ast = {"gsi": gsi_kw, "t0": [0, 0, 0, 0], "rate": rate, "n_tti": len(ttis), "subs": subs_ast, "irregular_cs": False,
+         "tcp_bad": False, "mnr_bad": False}
+  return data, ast
+
+
 def gen_config(rng, ast: dict) -> dict:
   rate = ast["rate"]
   r = rng.random()
